@@ -251,9 +251,6 @@ def install_matchers(check):
             k['_matcher'] = lambda what, replay: bool(replay.get('src')) and formfeed_class(replay['src']) \
                 and (what.startswith(('lint reports', 'location reports'))
                      or (what.startswith(('text at', 'position outside')) and replay.get('explained_by_splitlines') is True))
-        elif k.get('class') == 'pep695-type-params':
-            k['_matcher'] = lambda what, replay: what.startswith(('text at', 'location reports', 'lint reports')) \
-                and replay.get('pep695_name_followed_by_bracket') is True
         elif k.get('class') == 'window-51-lines':
             k['_matcher'] = lambda what, replay: what.startswith('text at') and replay.get('fallback_beyond_window') is True
 
@@ -273,7 +270,6 @@ def report(check, kind, src, fn, fails):
         wants = [w for w in [detail.get('want'), detail.get('name')] + list(detail.get('candidates') or []) if w]
         replay['explained_by_splitlines'] = formfeed_class(src) and any(
             slice_at(src.splitlines(), tuple(p2), len(w)) == w for w in wants)
-        replay['pep695_name_followed_by_bracket'] = pep695_class(src, detail)
         check.fail(what + ' (%s)' % (detail.get('name'),), replay)
 
 
@@ -433,14 +429,6 @@ def run(check):
     ]
     check.trusted += ['translators/tr_text.py (ast pattern recogniser; compares find_id_loc with a template)',
                       "the slicing oracle in harness/c11.py (parser lines = text split on '\\n' after universal-newline reading)"]
-
-
-def pep695_class(src, detail):
-    """known-finding class `pep695-type-params`: the source has a def/class of that name directly followed by '['
-    (the search then falls back to the keyword, or lands on a later occurrence of the name)"""
-    import re
-    name = detail.get('name') or ''
-    return bool(re.search(r'\b(def|class)([ \t]|\\\n)+' + re.escape(name) + r'\[', src))
 
 
 def beyond_window(src, detail):
